@@ -196,7 +196,7 @@ func runBFSWorker(r *core.Run, level int, in string) {
 				continue
 			}
 			if res.Viol != nil {
-				record(l, cfg, h, res)
+				record(l, "bfs", cfg, h, res)
 				continue
 			}
 			l.Add("bfs_successors", 1)
